@@ -135,7 +135,8 @@ pub fn diff_read(ex: &Geom, got: &Geom, shape_i: usize, cmp_kind_polygon: &dyn F
                 // zero or to the other sign although the exact area is not zero
                 let naive: f64 = a.pts.windows(2).map(|w| (f64::from_bits(w[1][0]) - f64::from_bits(w[0][0])) * (f64::from_bits(w[1][1]) + f64::from_bits(w[0][1]))).sum();
                 let exact = exact_area(&a.pts).unwrap_or(0);
-                let lost = naive == 0.0 || naive.is_nan() || (naive < 0.0) != (exact < 0);
+                // (the library halves the sum before it looks at the sign: a sum of one subnormal unit vanishes there)
+                let lost = naive / 2.0 == 0.0 || naive.is_nan() || (naive < 0.0) != (exact < 0);
                 return Some(format!("{}ring {} role {} vs {}", if lost { ROUNDING_MARK } else { "" }, ri, a.kind, b.kind));
             }
         }
